@@ -88,9 +88,9 @@ def body(c):
     # ---- modes M and G share their runs: every value TLC emits for replay has also been model-checked
     # (reader inverts the reference printers, deviations exact on their triggers).
     if c.quick:
-        gens = [("M+G values (3 nodes, depth 2, width 2, mixed atoms), strings<=2 over 26 code points, <=3 over 12",
-                 (3, 2, 2, "mixed", ALPHA_FULL, 2, ALPHA_SMALL, 3))]
-        nrand = 600
+        gens = [("M+G values (3 nodes, depth 2, width 2, mixed atoms), strings<=2 over 26 code points, <=3 over 8",
+                 (3, 2, 2, "mixed", ALPHA_FULL, 2, ALPHA_SMALL[:8], 3))]
+        nrand = 400
     else:
         gens = [("M+G values (4 nodes, depth 3, width 3, mixed atoms), strings<=3 over 26 code points, <=4 over 8",
                  (4, 3, 3, "mixed", ALPHA_FULL, 3, ALPHA_SMALL[:8], 4)),
